@@ -198,6 +198,8 @@ def snapshot(cpu, with_mem=True):
                 out['%s[%d]' % (k, i)] = e.value if isinstance(e, AbstractRegister) else e
     if hasattr(cpu, 'cplog'):
         out['cplog'] = tuple(cpu.cplog)
+    if hasattr(cpu, 'mon'):
+        out['excl'] = tuple(cpu.mon) if cpu.mon else None        # local exclusive monitor of the hooked flavour
     out['wfe'] = cpu.is_wait_for_event
     out['wfi'] = cpu.is_wait_for_interrupt
     if with_mem:
@@ -218,6 +220,9 @@ def apply_state(cpu, state):
             arr[:] = v
         elif k == 'cplog':
             cpu.cplog = list(v)
+        elif k == 'excl':
+            if hasattr(cpu, 'mon'):
+                cpu.mon = tuple(v) if v else None
         elif k == 'wfe':
             cpu.is_wait_for_event = v
         elif k == 'wfi':
